@@ -451,6 +451,8 @@ pub struct InitCase {
     pub av1_obu: ObuGene,
     pub vp9: Vp9Lite,
     pub via_builder: bool,
+    #[serde(default)]
+    pub stray: u8,
 }
 
 pub fn eval_init(c: &InitCase) -> Outcome {
@@ -470,6 +472,7 @@ pub fn eval_init(c: &InitCase) -> Outcome {
         via_builder: c.via_builder,
         timescale: 90000,
         frag_ms: 2000,
+        stray: if c.via_builder { c.stray } else { 0 },
     };
     let run = run_frag(&f, &[FOp::Init]);
     if let Some(p) = &run.panic {
@@ -537,6 +540,9 @@ pub fn eval_init(c: &InitCase) -> Outcome {
     }
     if c.via_builder {
         o.class("via_builder");
+        if c.stray != 0 {
+            o.class("stray_setters_of_other_codecs");
+        }
     }
     o
 }
@@ -566,9 +572,9 @@ fn init_strategy() -> impl Strategy<Value = InitCase> {
             level: 0,
             full_range_flag: fr,
         }),
-        any::<bool>(),
+        (any::<bool>(), prop_oneof![2 => Just(0u8), 1 => 0u8..16]),
     )
-        .prop_map(|(codec, width, height, sps, pps, vps, av1, av1_obu, vp9, via_builder)| InitCase {
+        .prop_map(|(codec, width, height, sps, pps, vps, av1, av1_obu, vp9, (via_builder, stray))| InitCase {
             codec,
             width,
             height,
@@ -579,6 +585,7 @@ fn init_strategy() -> impl Strategy<Value = InitCase> {
             av1_obu,
             vp9,
             via_builder,
+            stray,
         })
 }
 
